@@ -196,7 +196,7 @@ def param_vectors(kind, rng, n, tier, many=False):
         vs = [{"ov": r.choice([0, 25]), "cut": c, "thr": t} for c in cuts for t in (1, 2, 4)]
         return vs if many else r.sample(vs, 2)
     if kind == "FMINDEX":
-        vs = [{"rrr": rr, "bs": bs, "bwt": bw} for rr in (0, 1) for bs in (4, 5, 7, 20, 32) for bw in (1, 2, 5, 16, 64)]
+        vs = [{"rrr": rr, "bs": bs, "bwt": bw} for rr in (0, 1) for bs in (4, 5, 7, 20, 32) for bw in (0, 1, 2, 5, 16, 64)]
         return vs if many else r.sample(vs, 2)
     return [{}]
 
@@ -543,7 +543,16 @@ def c14_streams(tier, rng):
         body = [o for o in ops if o[0] not in ("reload", "iopen", "inext", "iclose")]
         rng.fork(c[0]).shuffle(body)
         cases2.append((c[0] + "_perm", c[1], c[2], c[3], c[4], head + body))
-    return [StreamSet("histories", "asan", cases), StreamSet("reordered", "asan", cases2)]
+    # decoding a codeword longer than the table chunk walks a subtree stored in the dictionary: the same
+    # queries repeated and reversed must keep their answers
+    S, rare, probe = longcw_dict(tier, rng)
+    lc = []
+    for kind in ("HTFC", "HHTFC", "RPHTFC", "HASHHF", "HASHUFFDAC"):
+        pv = {"b": 8, "ov": 25}
+        op = "loc" if kind in EXACT_ID_KINDS else "rt"
+        qs = [[op, hx(x)] for x in probe]
+        lc.append(("hl_%s" % kind, "dict", kind, pv, S, qs + qs + list(reversed(qs)) + [["exts"]] + qs))
+    return [StreamSet("histories", "asan", cases), StreamSet("reordered", "asan", cases2), StreamSet("longcodes", "asan", lc, timeout=120)]
 
 
 def c07_streams(tier, rng):
@@ -759,21 +768,14 @@ def codes_phase2(case, impl_lines):
     return ops
 
 
-def c18_streams(tier, rng):
-    cases = []
-    for name, v in freq_vectors(tier, rng):
-        fs = ",".join(str(x) for x in v)
-        cases.append(("ct_%s" % name, "codes", "-", {}, [], [["hu", fs], ["hf", fs]]))
-    # the dictionaries that decode through the chunk table: every answer goes through encode/decode
-    def fn(kind, pv, S, r):
-        return c01_ops(kind, pv, S, r) + c04_ops(kind, pv, S, r)[:8] + [["tabs"]]
-    dcases = kind_cases(tier, rng, ["HTFC", "HHTFC", "RPHTFC", "HASHHF", "HASHUFFDAC"], fn, battery=small_battery(tier, rng, 30 if tier == "thorough" else 12), name="t")
-    # strings whose codewords exceed the 16-bit chunk of the decoding table. Every code starts with 256
-    # unit weights, so a byte that occurs once gets a codeword of more than 16 bits only in a text of
-    # well over 100 KB with a geometric letter distribution; the rare bytes are put at the start of a
-    # string (byte-aligned codeword) and inside one.
+def longcw_dict(tier, rng):
+    """Strings whose codewords exceed the 16-bit chunk of the decoding table. Every code starts with 256
+    unit weights, so a byte that occurs once gets a codeword of more than 16 bits only in a text of
+    well over 100 KB with a geometric letter distribution; the rare bytes are put at the start of a
+    string (byte-aligned codeword) and inside one.  Returns (S, rare strings, strings to probe)."""
     r = rng.fork("longcw")
     letters = [0x61 + k for k in range(13)]
+
     def skewed(n):
         out = bytearray()
         for _ in range(n):
@@ -788,6 +790,19 @@ def c18_streams(tier, rng):
     rare = [bytes([0xE0 + i]) + skewed(30) for i in range(6)] + [skewed(17) + bytes([0xD0 + i]) + skewed(9) for i in range(4)]
     S = sorted(body | set(rare))
     probe = rare + r.sample(sorted(body), 25)
+    return S, rare, probe
+
+
+def c18_streams(tier, rng):
+    cases = []
+    for name, v in freq_vectors(tier, rng):
+        fs = ",".join(str(x) for x in v)
+        cases.append(("ct_%s" % name, "codes", "-", {}, [], [["hu", fs], ["hf", fs]]))
+    # the dictionaries that decode through the chunk table: every answer goes through encode/decode
+    def fn(kind, pv, S, r):
+        return c01_ops(kind, pv, S, r) + c04_ops(kind, pv, S, r)[:8] + [["tabs"]]
+    dcases = kind_cases(tier, rng, ["HTFC", "HHTFC", "RPHTFC", "HASHHF", "HASHUFFDAC"], fn, battery=small_battery(tier, rng, 30 if tier == "thorough" else 12), name="t")
+    S, rare, probe = longcw_dict(tier, rng)
     for kind in ("HTFC", "HHTFC", "RPHTFC", "HASHHF", "HASHUFFDAC"):
         for pv in ({"b": 3, "ov": 25}, {"b": 16, "ov": 0}):
             for ph, pre in (("b", []), ("l", [["reload", "own", 1]])):
